@@ -730,8 +730,10 @@ def main():
             def still(lines, f=f):
                 r = run_scenarios([lines])[0]
                 return any(x.kind == 'violation' and sig_of(x) == sig_of(f) for x in judge(r, pdef))
-            if f.scen.get('no_rerun'):
-                f2 = f            # e.g. a SIGKILL run: the directory the child left behind is unique
+            if f.scen.get('no_rerun') or any('pause:' in l for l in f.scen['script']):
+                # a SIGKILL run (the directory the child left behind is unique), or a scenario with stalled file
+                # operations: a candidate that lost its `release` line would wait out every time-out
+                f2 = f
             elif time.time() < shrink_deadline:
                 small = shrink(f.scen['script'], pdef, still)
                 r = run_scenarios([small])[0]
